@@ -18,6 +18,15 @@ HOT = ["SQ", "BSL", "DQ", "SP", "LF", "DOL", "BT"]       # drawn more often: wha
 CODE = {"SQ": "Q", "DQ": "D", "BSL": "B", "DOL": "S", "BT": "T", "SP": "_", "LF": "N", "STAR": "X", "SEMI": "C",
         "AMP": "A", "PIPE": "P", "LP": "L", "LB": "O", "RB": "E", "BANG": "G", "HASH": "H", "TILDE": "W"}
 SPECIAL_CODES = set(CODE.values())
+CHAR = {"Q": "'", "D": '"', "B": "\\", "S": "$", "T": "`", "_": " ", "N": "\n", "X": "*", "C": ";", "A": "&", "P": "|",
+        "L": "(", "O": "{", "E": "}", "G": "!", "H": "#", "W": "~"}
+
+
+def show(code):
+    """wire code (one character per symbol) -> the text it stands for (evidence / messages only)"""
+    if isinstance(code, list):
+        return [show(c) for c in code]
+    return "".join(CHAR.get(ch, ch) for ch in code)
 
 
 # ------------------------------------------------------------------------------------------------ shells
@@ -59,8 +68,14 @@ def kf_site(c, exp, r):
 def describe(c, exp, r):
     got = r.get("got") or {}
     diff = {k: {"spec": exp[k], "real": got.get(k)} for k in exp if got.get(k) != exp[k]}
-    return "input %s: %s" % (json.dumps({k: c[k] for k in c if k in ("s", "t", "its", "ix", "cur", "sel", "q", "fp")}),
-                             json.dumps(diff)[:900])
+    inp = {k: (show(c[k]) if k in ("s", "t", "its", "q") else c[k]) for k in c
+           if k in ("s", "t", "its", "ix", "cur", "sel", "q", "fp")}
+
+    def shw(v):
+        if isinstance(v, dict):
+            return {k: shw(x) for k, x in v.items()}
+        return show(v) if isinstance(v, (str, list)) else v
+    return "input %s: %s" % (json.dumps(inp), json.dumps({k: shw(v) for k, v in diff.items()})[:900])
 
 
 def mc_and_cases(ctx, module, cfg, label, coverage=False, env=None, timeout=2400, workers=None):
@@ -238,7 +253,8 @@ def run(ctx):
     replay_cases(ctx, h, "TestVerifShellQuote", cases, exp_quote, "quote4", env=senv, describe=describe, kf=kf_site)
     nontrivial += sum(1 for c in cases if SPECIAL_CODES & set(c["s"]))
     for c in (cases[1], cases[len(cases) // 3], cases[-1]):
-        ctx.sample({"text": c["s"], "QuoteEntry": c["p"], "fish": c["f"], "shell_words": c["w"]})
+        ctx.sample({"text": show(c["s"]), "QuoteEntry": show(c["p"]), "fish": show(c["f"]),
+                    "line_given_to_shells": show(c["p"] + "_" + c["e"] + "_a" + c["p"] + "a"), "shell_words": show(c["w"])})
     if not ctx.quick:
         for first in DATA:          # strings of length 5, sharded by first symbol (bounded memory, 18 TLC runs)
             _, cs = mc_and_cases(ctx, "MC_Shell", "MC_Shell.cfg", "quote5-" + first, env={"C12_FIRST": first}, workers=W)
@@ -256,26 +272,40 @@ def run(ctx):
     replay_cases(ctx, h, "TestVerifShellLex", lex, lambda c: {"sh": per_shell(shells, c["w"])}, "lex", env=senv,
                  describe=describe, kf=kf_site)
     ctx.cov["shell_model_lines_validated"] = len(lex)
-    ctx.sample({"command_line": lex[len(lex) // 2]["t"], "shell_words": lex[len(lex) // 2]["w"]})
+    ctx.sample({"command_line": show(lex[len(lex) // 2]["t"]), "shell_words": show(lex[len(lex) // 2]["w"])})
 
     # ---- (1)+(2c) expansion: every (template, terminal state) pair
     def exp_expand(c):
         return {"valid": c["valid"], "x": c["x"], "xf": c["xf"],
                 "sh": per_shell(shells, c["w"]) if (c["valid"] and c["ws"] == "OK") else None}
 
-    cfgs = [("MC_ShellExpand_quick.cfg", "expand", True)]
+    # (TLC's -coverage does not get past start-up on this module - its cost model of the nested folds explodes - so the
+    # per-action coverage is measured on the exported states: every action changes a variable of its own)
+    cfgs = [("MC_ShellExpand_quick.cfg", "expand")]
     if not ctx.quick:
-        cfgs += [("MC_ShellExpand_wide.cfg", "expand-wide", False), ("MC_ShellExpand_deep.cfg", "expand-deep", False)]
+        cfgs += [("MC_ShellExpand_wide.cfg", "expand-wide"), ("MC_ShellExpand_deep.cfg", "expand-deep")]
     spoken = shell_read = 0
-    for cfg, label, cov in cfgs:
-        _, ex = mc_and_cases(ctx, "MC_ShellExpand", cfg, label, coverage=cov, workers=W, timeout=3000)
+    for cfg, label in cfgs:
+        _, ex = mc_and_cases(ctx, "MC_ShellExpand", cfg, label, workers=W, timeout=3000)
+        acts = {"AddToken": sum(1 for c in ex if c["t"]), "Toggle": sum(1 for c in ex if c["sel"]),
+                "Move": sum(1 for c in ex if c["cur"]), "SetQuery": sum(1 for c in ex if c["q"]),
+                "SetForcePlus": sum(1 for c in ex if c["fp"]),
+                "want:OK": sum(1 for c in ex if c["want"] == "OK"), "want:NA": sum(1 for c in ex if c["want"] == "NA"),
+                "want:HAZARD": sum(1 for c in ex if c["want"] == "HAZARD"),
+                "want:INCOMPLETE": sum(1 for c in ex if c["want"] == "INCOMPLETE"),
+                "not-valid": sum(1 for c in ex if not c["valid"])}
+        if min(acts.values()) == 0:
+            raise Infra("vacuous model (%s): %s" % (label, acts))
+        ctx.cov["action_coverage"][label + " (states reached through / classified as)"] = acts
         replay_cases(ctx, h, "TestVerifShellExpand", ex, exp_expand, label, env=senv, describe=describe, kf=kf_site)
         spoken += sum(1 for c in ex if c["want"] == "OK" and c["valid"] and "O" in c["t"])
         shell_read += sum(1 for c in ex if c["valid"] and c["ws"] == "OK")
         if label == "expand":
             good = [c for c in ex if c["want"] == "OK" and c["sel"] and "O+E" in c["t"]]
             for c in good[:2]:
-                ctx.sample({k: c[k] for k in ("t", "its", "cur", "sel", "q", "fp", "x", "w")})
+                ctx.sample({"template": show(c["t"]), "lines": show(c["its"]), "cur": c["cur"], "sel": c["sel"],
+                            "query": show(c["q"]), "forcePlus": c["fp"], "expansion": show(c["x"]),
+                            "shell_words": show(c["w"])})
         del ex
     if spoken == 0:
         raise Infra("no expansion case in which the property speaks")
@@ -287,6 +317,9 @@ def run(ctx):
     inputs = [rand_record_input(ctx.rng) for _ in range(n)]
     recs, res = record_and_judge(ctx, h, "TestVerifShellRecord", inputs, "record", senv, describe_expand_rec,
                                  lambda r: {"site": "replacePlaceholder/ExecCommand", "valid": r["valid"]})
+    for r in recs:
+        if r["valid"] and set(r["argv"]) != {sh["name"] for sh in shells}:
+            raise Infra("record without the argv of every shell")
     jspoken = len(res.raw_items("SPOKEN"))
     if jspoken < n // 5:
         raise Infra("only %d of %d random records fall under the property" % (jspoken, n))
